@@ -241,6 +241,107 @@ theorem mediaHead_facts (g1 : Gap) (mq : List Tok) (g2 : Gap) (h : MqOk mq) :
   · simp [mediaHead, noBrace_append, h1.noBrace, h2.noBrace, h.nb]
   · simp [mediaHead, noString_append, h1.noString, h2.noString, h.ns]
 
+/-! ## the optional name of `@media` / `@import` -/
+
+theorem unescQuote_cons_ne (q c : Nat) (l : Cps) (h : c ≠ 0x5C) : unescQuote q (c :: l) = c :: unescQuote q l := by
+  cases l with
+  | nil => simp [unescQuote]
+  | cons d rest => simp [unescQuote, h]
+
+def escQuote (q : Nat) (h : Cps) : Cps := h.flatMap (fun c => if c = q then [0x5C, c] else [c])
+
+theorem unescQuote_esc (q : Nat) (hq : q ≠ 0x5C) (h : Cps) (hb : 0x5C ∉ h) :
+    unescQuote q (escQuote q h ++ [q]) = h ++ [q] := by
+  induction h with
+  | nil => simp [escQuote, unescQuote]
+  | cons c t ih =>
+    have hc : c ≠ 0x5C := by intro hh; exact hb (by simp [hh])
+    have ht : 0x5C ∉ t := by intro hh; exact hb (by simp [hh])
+    by_cases hcq : c = q
+    · subst hcq
+      have : escQuote c (c :: t) ++ [c] = 0x5C :: c :: (escQuote c t ++ [c]) := by simp [escQuote]
+      rw [this]
+      simp only [unescQuote, true_and, ↓reduceIte]
+      rw [ih ht]
+      simp
+    · have : escQuote q (c :: t) ++ [q] = c :: (escQuote q t ++ [q]) := by simp [escQuote, hcq]
+      rw [this, unescQuote_cons_ne q c _ hc, ih ht]
+      simp
+
+theorem quoteStr_eq (q : Quote) (h : Cps) : quoteStr q h = q.cp :: (escQuote q.cp h ++ [q.cp]) := rfl
+
+theorem quote_ne_bs (q : Quote) : q.cp ≠ 0x5C := by cases q <;> decide
+
+/-- `_stringtokenvalue` gives back the text of a quoted string -/
+theorem stringValue_quoteStr (q : Quote) (h : Cps) (hb : 0x5C ∉ h) : stringValue (quoteStr q h) = h := by
+  rw [quoteStr_eq]
+  simp only [stringValue]
+  rw [unescQuote_cons_ne _ _ _ (quote_ne_bs q), unescQuote_esc _ (quote_ne_bs q) h hb]
+  simp
+
+/-- what the optional name must satisfy: no backslash in its text -/
+def NameWF (name : SName) : Prop := ∀ p, name = some p → 0x5C ∉ p.2.1
+
+theorem nameTok?_value (name : SName) (h : NameWF name) :
+    (nameTok? name).map (fun t => stringValue t.val) = name.map (·.2.1) := by
+  cases name with
+  | none => rfl
+  | some p =>
+    obtain ⟨q, n, g⟩ := p
+    simp [nameTok?, strTok, stringValue_quoteStr q n (h _ rfl)]
+
+
+
+theorem safe_flat_noStr (m : Mode) (hm : m.endString = false) (t : Tok) (hv : SafeVal t.val) (h1 : t.typ ≠ .eof)
+    (h2 : t.typ ≠ .function) : Flat m t := by
+  refine ⟨h1, safe_br t hv h2, ?_⟩
+  obtain ⟨c, cs, hv, hc⟩ := hv
+  simp only [endTok, hm, Bool.false_and, Bool.or_false]
+  cases h : isInfixOf t.val m.ends with
+  | false => rfl
+  | true =>
+    rw [hv] at h
+    exact absurd (ends_sub_delims m c (isInfixOf_head_mem c cs _ h)) hc
+
+theorem strTok_safe (q : Quote) (n : Cps) : SafeVal (strTok q n).val :=
+  ⟨q.cp, _, rfl, by cases q <;> simp [Quote.cp, delims]⟩
+
+theorem strTok_flat (m : Mode) (hm : m.endString = false) (q : Quote) (n : Cps) : Flat m (strTok q n) :=
+  safe_flat_noStr m hm _ (strTok_safe q n) (by simp [strTok]) (by simp [strTok])
+
+theorem nameToks_qb (m : Mode) (hm : m.endString = false) (name : SName) : QB m (nameToks name) := by
+  cases name with
+  | none => exact QB.nil _
+  | some p => obtain ⟨q, n, g⟩ := p; exact QB.cons (strTok_flat m hm q n) ((gapL_toks g).qb _)
+
+theorem nameToks_noBrace (name : SName) : noBrace (nameToks name) = true := by
+  cases name with
+  | none => rfl
+  | some p =>
+    obtain ⟨q, n, g⟩ := p
+    have : nameToks (some (q, n, g)) = [strTok q n] ++ Gap.toks g := rfl
+    rw [this, noBrace_append, (gapL_toks g).noBrace]
+    simp [noBrace, (strTok_flat .default rfl q n).2.1]
+
+/-- `mediaqueryendonly`: a balanced stretch without braces and strings, then a STRING (the name of the rule) -/
+theorem upto_mq_string (g : List Tok) (st : Tok) (rest : List Tok)
+    (hbal : nest [] g = some []) (hb : noBrace g = true) (he : noEof g = true) (hst : noString g = true)
+    (ht : st.typ = .string) (hv : SafeVal st.val) :
+    upto .mq none (g ++ st :: rest) = (g ++ [st], rest) := by
+  unfold upto
+  have hinit : Mode.mq.init none = cntFrom m1Cnt [] := rfl
+  rw [hinit, uptoLoop_calm .mq m1Cnt [] [] g (st :: rest) (calm_mq [] g rfl hb he hst ⟨[], hbal⟩) hbal]
+  rw [uptoLoop_stop]
+  right
+  obtain ⟨c, cs, hv, hc⟩ := hv
+  have hne : ∀ d : Nat, d ∈ delims → st.val ≠ [d] := by
+    intro d hd h; rw [hv] at h; simp at h; exact hc (h.1 ▸ hd)
+  have : bump (cntFrom m1Cnt []) st = ⟨-1, 0, 0⟩ := by
+    simp [bump, cntFrom, m1Cnt, ht, hne 0x7B (by decide), hne 0x7D (by decide), hne 0x5B (by decide),
+      hne 0x5D (by decide), hne 0x28 (by decide), hne 0x29 (by decide)]
+  rw [this]
+  simp [stop, ht]
+
 /-- `CSSMediaRule.cssText = tokens` on `@media head { inner }`, whatever parses the nested `@media` rules -/
 theorem mediaRule_eval (O : Oracle) (ns : List (Cps × Cps)) (fuel : Nat) (at_ : Tok) (head inner : List Tok)
     (hat : at_.typ = .mediaSym) (hq : QB .default head) (hnb : noBrace head = true)
@@ -260,6 +361,54 @@ theorem mediaRule_eval (O : Oracle) (ns : List (Cps × Cps)) (fuel : Nat) (at_ :
   have t4 : rbraceTok.val = vRBrace := rfl
   simp only [t1, t2, ↓reduceIte, hO, mediaBlock, e3, sepEnd, List.dropLast_concat, List.getLast?_concat, t3, t4]
   simp [t2]
+
+theorem mediaNameOk_gap (g : List Tok) (hg : ∀ t ∈ g, isGapTok t = true) : mediaNameOk g = true := by
+  simp only [mediaNameOk, List.all_eq_true]
+  intro t ht
+  have := hg t ht
+  simp only [isGapTok, Bool.or_eq_true, beq_iff_eq] at this
+  rcases this with h | h <;> simp [h]
+
+/-- `CSSMediaRule.cssText = tokens` on `@media head "name" g3 { inner }` -/
+theorem mediaRule_eval_named (O : Oracle) (ns : List (Cps × Cps)) (fuel : Nat) (at_ : Tok) (head inner : List Tok)
+    (q : Quote) (n : Cps) (g3 : Gap)
+    (hat : at_.typ = .mediaSym) (hq : QB .default head) (hnb : noBrace head = true)
+    (hns : noString head = true) (hO : O.mediaOk head = true)
+    (hB : nest [] inner = some []) (hBe : noEof inner = true) :
+    mediaRule O ns (fuel + 1) (at_ :: (head ++ strTok q n :: (Gap.toks g3 ++ lbraceTok :: (inner ++ [rbraceTok])))) =
+      some (.media (some (head, some (strTok q n)))
+        (parseLoop (mediaStep O ns (fun l => mediaRule O ns fuel l)) [] inner)) := by
+  have hg := gapL_toks g3
+  have e1 : upto .mq none (head ++ strTok q n :: (Gap.toks g3 ++ lbraceTok :: (inner ++ [rbraceTok]))) =
+      (head ++ [strTok q n], Gap.toks g3 ++ lbraceTok :: (inner ++ [rbraceTok])) :=
+    upto_mq_string head _ _ hq.2 hnb hq.noEof hns rfl (strTok_safe q n)
+  have e2 : upto .blockstart none (Gap.toks g3 ++ lbraceTok :: (inner ++ [rbraceTok])) =
+      (Gap.toks g3 ++ [lbraceTok], inner ++ [rbraceTok]) :=
+    upto_blockstart _ lbraceTok _ (hg.qb .default).2 hg.noBrace (hg.qb .default).noEof rfl
+  have e3 : upto .mediaend none (inner ++ [rbraceTok]) = (inner ++ [rbraceTok], []) :=
+    upto_blockend_closed .mediaend (Or.inr rfl) inner rbraceTok [] hB hBe rfl
+  have s1 : (strTok q n).typ = TT.string := rfl
+  have t2 : lbraceTok.val = vLBrace := rfl
+  have t3 : rbraceTok.typ ≠ TT.eof := by decide
+  have t4 : rbraceTok.val = vRBrace := rfl
+  simp only [mediaRule, hat, e1, sepEnd, List.dropLast_concat, List.getLast?_concat, s1, e2, ↓reduceIte, hO,
+    mediaNameOk_gap _ hg.isGap, mediaBlock, e3, t3, t4, t2]
+  simp [t2]
+
+/-- the two forms in one: `@media head [name] { inner }` -/
+theorem mediaRule_eval' (O : Oracle) (ns : List (Cps × Cps)) (fuel : Nat) (at_ : Tok) (head inner : List Tok)
+    (name : SName)
+    (hat : at_.typ = .mediaSym) (hq : QB .default head) (hnb : noBrace head = true)
+    (hns : noString head = true) (hO : O.mediaOk head = true)
+    (hB : nest [] inner = some []) (hBe : noEof inner = true) :
+    mediaRule O ns (fuel + 1) (at_ :: ((head ++ nameToks name) ++ lbraceTok :: (inner ++ [rbraceTok]))) =
+      some (.media (some (head, nameTok? name))
+        (parseLoop (mediaStep O ns (fun l => mediaRule O ns fuel l)) [] inner)) := by
+  cases name with
+  | none => simpa [nameToks, nameTok?] using mediaRule_eval O ns fuel at_ head inner hat hq hnb hns hO hB hBe
+  | some p =>
+    obtain ⟨q, n, g3⟩ := p
+    simpa [nameToks, nameTok?] using mediaRule_eval_named O ns fuel at_ head inner q n g3 hat hq hnb hns hO hB hBe
 
 theorem bal_cons_flat {t : Tok} {g : List Tok} (ht : t.br = .no) (hg : nest [] g = some []) :
     nest [] (t :: g) = some [] := by
